@@ -166,11 +166,60 @@ pub fn probe_frames(n: u64) -> Vec<Vec<u8>> {
     let ep = Endpoints::v4([203, 0, 113, (n % 250) as u8 + 1], 20000 + (n % 9000) as u16, [198, 18, 0, 9], 8080);
     let mut s = Script::new(ep, Link::RawIp, 77, 99);
     s.handshake();
-    let (req, res) = scenario::simple_h2(&mut r, n, false);
+    let (_req, res) = scenario::simple_h2(&mut r, n, false);
+    // the probe's request inserts a header into the HPACK dynamic table and refers back to it
+    // (index 62): it only decodes on a decoder whose state is that of a fresh connection
+    let req = {
+        use crate::h2gen::{self, Encoder, HeadersOpts, Indexing, Repr};
+        let mut enc = Encoder::new();
+        let mut block = Vec::new();
+        for (n, v) in [(":method", "GET"), (":scheme", "http"), (":path", "/probe"), (":authority", "probe.example")] {
+            enc.field(&mut block, n.as_bytes(), v.as_bytes(), Repr::Indexed);
+        }
+        enc.field(&mut block, b"x-probe", b"1", Repr::lit(Indexing::Incremental, false, false));
+        enc.raw_indexed(&mut block, 62);
+        h2gen::request_bytes(&h2gen::settings(&[(3, 100)]), &block, &HeadersOpts::plain(1), &[])
+    };
     s.c_data(&req);
     s.s_data(&res);
     frames.extend(s.frames);
     frames
+}
+
+/// connections crafted to leave state behind: header blocks that change HPACK state and then fail,
+/// partial TLS records, unterminated heads
+fn stateful_poisons(r: &mut Rng) -> Vec<Vec<Vec<u8>>> {
+    use crate::h2gen::{self, HeadersOpts};
+    let mut out = Vec::new();
+    let blocks: Vec<Vec<u8>> = vec![
+        vec![0x20, 0xc6],                         // table size 0, then an out-of-range index
+        vec![0x3f, 0xe1, 0x7f, 0xff],             // table size 16384, then garbage
+        vec![0x40, 0x01, b'a', 0x01, b'b', 0xff, 0xff, 0xff], // insert a:b, then a broken integer
+        vec![0x40, 0x03, b'k', b'e', b'y', 0x02, b'v', b'1', 0x40, 0x01, b'x', 0x01, b'y', 0xc7],
+        vec![0x20, 0x82, 0x86, 0x84, 0x41, 0x01, b'h', 0xbe, 0xbf], // size 0, inserts, dangling references
+    ];
+    for (i, b) in blocks.iter().enumerate() {
+        for server_side in [false, true] {
+            let ep = Endpoints::v4([10, 66, i as u8, 1 + server_side as u8], 41000 + i as u16, [10, 67, 0, 1], 8080);
+            let mut s = Script::new(ep, Link::Ethernet, r.u32(), r.u32());
+            s.handshake();
+            let req = h2gen::request_bytes(&h2gen::settings(&[(1, 0), (3, 100)]), if server_side { &[0x82, 0x86, 0x84][..] } else { b }, &HeadersOpts::plain(1), &[]);
+            s.c_data(&req);
+            let mut o = HeadersOpts::plain(1);
+            o.end_stream = true;
+            let res = h2gen::response_bytes(&h2gen::settings(&[]), if server_side { b } else { &[0x88][..] }, &o, &[]);
+            s.s_data(&res);
+            out.push(s.frames);
+        }
+    }
+    // TLS: a partial ClientHello that never completes, and a huge declared record
+    let ep = Endpoints::v4([10, 66, 9, 1], 42000, [10, 67, 0, 2], 443);
+    let mut s = Script::new(ep, Link::Ethernet, 1, 2);
+    s.handshake();
+    let h = scenario::client_hello(r, 1, 0);
+    s.c_data(&h[..h.len() / 2]);
+    out.push(s.frames);
+    out
 }
 
 fn run_probe(bank: &mut Bank, n: u64) -> Result<Vec<(String, Vec<Vec<String>>)>, (String, String)> {
@@ -626,6 +675,22 @@ pub fn run(ctx: &mut Ctx) {
         }
     }
     ctx.bucket("frames/ip-header-length-fields");
+
+    // ---- W5: connections crafted to leave state behind, each followed at once by the probe
+    st.tag = "stateful-poison";
+    let poisons = stateful_poisons(&mut ctx.rng_global(1, 5));
+    for (pi, conn) in poisons.iter().enumerate() {
+        if !ctx.mine(pi as u64) && ctx.nshards > 1 && pi as u64 % ctx.nshards as u64 != ctx.shard as u64 {
+            continue;
+        }
+        for (k, f) in conn.iter().enumerate() {
+            if k + 1 == conn.len() {
+                st.since_probe = 64; // probe right after the last frame of the poison connection
+            }
+            hostile_frame(ctx, &mut st, f);
+        }
+    }
+    ctx.bucket("frames/stateful-poison-connections");
 
     // ---- W6: seeded grammar-aware mutation of the seed frames
     st.tag = "mutation";
